@@ -369,7 +369,8 @@ def fs_random_spec(rng, n):
                 name = f"f{i}-\u00fc.txt" if i % 4 == 0 else f"f{i}.txt"
                 files.append(name)
                 names_here.add(name)
-                res.append([name, False, rng.randrange(0, 5000), rng.randrange(10 ** 9, 2 * 10 ** 9) + rng.choice([0.0, 0.5, 0.25]), None, []])
+                res.append([name, False, 0 if i % 6 == 1 else rng.randrange(0, 5000),
+                            0.0 if i % 5 == 2 else rng.randrange(10 ** 9, 2 * 10 ** 9) + rng.choice([0.0, 0.5, 0.25]), None, []])   # also empty files, the epoch
         return res
 
     return mk(shape, set())
@@ -449,6 +450,9 @@ def run(ctx):
             ("typed-str", [({"a": 0, "k": "a"}, [({"a": 1, "k": "b"}, [])]), ({"a": 2, "k": "a"}, [({"a": 1, "k": "a"}, []), ({"a": 0, "k": "b"}, [])])]),
             ("typed-str", [({"a": 0, "k": "a", "did": 5}, []), ({"a": 1, "k": "b"}, [({"a": 0, "k": "a", "did": 5}, [])])]),
             ("plain-obj", [(18, [(12, []), (15, [])]), (24, [(18, []), (0, [])])]),
+            # explicit ids that are FALSY (0, "") in a typed tree, next to nodes with the same data under the default id
+            ("typed-str", [({"a": 0, "k": "a", "did": 0}, [({"a": 1, "k": "b", "did": ""}, [])]), ({"a": 2, "k": "a"}, [({"a": 0, "k": "a"}, []), ({"a": 1, "k": "b"}, [])])]),
+            ("plain-str", [({"a": 0, "did": 0}, [({"a": 1, "did": ""}, [])]), (2, [(0, []), (1, [])])]),
             # one data object under three and four kinds (x, y, z / x, y, y, z, x): every occurrence keeps ITS kind
             ("typed-str", [({"a": 0, "k": "x"}, [({"a": 1, "k": "x"}, [])]), ({"a": 2, "k": "x"}, [({"a": 0, "k": "y"}, [])]), ({"a": 3, "k": "x"}, [({"a": 0, "k": "z"}, [])])]),
             ("typed-obj", [({"a": 18, "k": "x"}, []), ({"a": 0, "k": "x"}, [({"a": 18, "k": "y"}, []), ({"a": 1, "k": "x"}, [({"a": 18, "k": "y"}, [])])]),
